@@ -9,7 +9,7 @@ pub struct FxHashMap<K, V> { m: std::collections::HashMap<K, V> }
 
 impl<K, V> FxHashMap<K, V> {
     /// ghost view: every (key, value) pair ever inserted
-    pub uninterp spec fn entries(&self) -> Set<(K, V)>;
+    pub uninterp spec fn entries(&self) -> ISet<(K, V)>;
 
     #[verifier::external_body]
     pub fn insert(&mut self, k: K, v: V) -> (r: Option<V>)
